@@ -27,9 +27,9 @@
 EXTENDS Lexer, SequencesExt, Json, CSV, IOUtils
 
 (* ---- the alphabets ---------------------------------------------------- *)
-Idents   == <<"x", "e", "L", "u8", "p1">>
+Idents   == <<"x", "e", "L", "u8", "p1", "@", "carr@", "`x", "x$">>     \* extended characters (Lexer.tla: @ ` $ stand for 2-, 3-, 4-byte UTF-8 characters): whole, at the end, at the start
 Numbers  == <<"1", "0xe", "1.", ".5", "1e5", "0">>
-Literals == <<"\"s\"", "'c'", "L\"s\"", "L'c'">>
+Literals == <<"\"s\"", "'c'", "L\"s\"", "L'c'", "\"@\"">>
 Puncts   == <<"[", "]", "(", ")", "{", "}", ".", "->", "++", "--", "&", "*", "+", "-", "~", "!", "/", "%",
               "<<", ">>", "<", ">", "<=", ">=", "==", "!=", "^", "|", "&&", "||", "?", ":", ";", "...",
               "=", "*=", "/=", "%=", "+=", "-=", "<<=", ">>=", "&=", "^=", "|=", ",", "#", "##">>
@@ -40,7 +40,7 @@ Tri      == <<".", "...", "<", ">", "=", "<<", ">>", "+", "-", "1", "e", "/", "*
 TriSet   == {Tri[i] : i \in DOMAIN Tri}
 
 Last1(a) == Ch(a, Len(a))
-WordCh   == IdChar \cup {"$"}
+IsWord(c) == IsIdChar(c)                   \* main.c is_word_char: isalnum, _, any byte >= 0x80 (and $, which stands for an extended character here)
 
 (* proposed print_tokens test (C transcription):
      a = last character of prev, b = first character of tok
@@ -54,8 +54,8 @@ AvoidPaste(pa, pb) ==
   LET a == Last1(pa)
       b == Ch(pb, 1)
       num == KindOf(pa) = "num"
-  IN IF a \in WordCh \/ (a = "." /\ num)
-     THEN b \in WordCh \/ b \in {".", "\"", "'"} \/ (num /\ a \in {"e", "E", "p", "P"} /\ b \in {"+", "-"})
+  IN IF IsWord(a) \/ (a = "." /\ num)
+     THEN IsWord(b) \/ b \in {".", "\"", "'"} \/ (num /\ a \in {"e", "E", "p", "P"} /\ b \in {"+", "-"})
      ELSE CASE a = "." -> b = "." \/ b \in Digit
             [] a = "+" -> b \in {"+", "="}
             [] a = "-" -> b \in {"-", "=", ">"}
